@@ -1430,6 +1430,12 @@ fn c10(cx: &mut Ctx<'_, '_>) {
 
 fn c18(cx: &mut Ctx<'_, '_>) {
     let an = cx.an;
+    // the CLI values have to arrive in the first place: the runner's options are global ones and may
+    // follow a sub-command of the test binary's own CLI
+    if let Some(why) = crate::world::with_rs(|rs| rs.cli_rejected.clone()) {
+        cx.viol("C18", "cli:runner-option-rejected-after-subcommand", format!("the crate's CLI rejected {why}"), json!(null));
+        return;
+    }
     // "likewise CLI --concurrency overrides and --fail-fast adds to the builder settings"
     {
         let c = &an.case.cfg;
